@@ -5,6 +5,7 @@ JOBS="${1:-4}"
 HERE="$(cd "$(dirname "$0")/.." && pwd)"
 export VERIF_CASE_LIMIT="${VERIF_CASE_LIMIT:-120}"
 ls -d "$HERE"/seeded/*/ | xargs -P "$JOBS" -I{} bash -c '
-  D="{}"; ID=$(basename "$D"); P=$(python3 -c "import json; print(json.load(open(\"$D/meta.json\"))[\"breaks_property\"])")
+  D="{}"; ID=$(basename "$D"); P=$(python3 -c "import json; m=json.load(open(\"$D/meta.json\")); print(m.get(\"own_check\", m[\"breaks_property\"]))")
+  if [ "$P" = none ]; then echo "$ID declined (outside the input domain): no check expected to report it"; exit 0; fi
   R=$("'"$HERE"'/tools/seedcheck.sh" "$D/patch.diff" quick $P 2>&1 | grep -v WARN | grep "exit=" | cut -c1-160)
   echo "$ID $R"'
